@@ -98,3 +98,9 @@ Example ex_setattr_unknown :
   run_case ([dd [112]%N (Some TInt) false VNone], [SSet [([113]%N, VInt 1)]])
   = OList [OList [OTag "AttributeError"]; OList [ONone]].
 Proof. vm_compute. reflexivity. Qed.
+
+(* "90s 30s" and "30sec 90": repeated units add up (seeded change C44_3 made the later one overwrite) *)
+Example ex_td_repeated : td_ref [57;48;115;32;51;48;115]%N = Some 120000000
+  /\ td_ref [51;48;115;101;99;32;57;48]%N = Some 120000000
+  /\ parse_timedelta [57;48;115;32;51;48;115]%N = Ok 120000000.
+Proof. repeat split; vm_compute; reflexivity. Qed.
